@@ -9,6 +9,7 @@ import (
 	"os"
 	"os/exec"
 	"reflect"
+	"runtime/debug"
 	"strconv"
 	"strings"
 	"sync"
@@ -70,6 +71,35 @@ var c06PrintOpts = [][]syntax.PrinterOption{
 type c06Op struct{ op, impl string }
 
 var c06SlotsMu sync.Mutex
+
+func c06HasFailure(c *Ctx, w string) bool {
+	for _, f := range c.Failures {
+		if f.Witness == w {
+			return true
+		}
+	}
+	return false
+}
+
+// c06WFReq is the harness's copy of wfReq (lean/ShVerif/Model/C06.lean); the `wf` tie compares the
+// Lean predicate with the real Pos()/End() on the same nodes, and c06Post compares this copy with
+// them too, so the three cannot drift apart unnoticed.
+var c06WFReq = map[string][]string{"Word": {"Parts"}, "CallExpr": {"Assigns", "Args"}, "CaseItem": {"Patterns"}, "LetClause": {"Exprs"}, "BraceExp": {"Elems"}}
+
+func c06WF(ty string, lens []string) bool {
+	fields, ok := c06WFReq[ty]
+	if !ok {
+		return true
+	}
+	for _, f := range fields {
+		for _, l := range lens {
+			if strings.HasPrefix(l, f+"=") && l != f+"=0" {
+				return true
+			}
+		}
+	}
+	return false
+}
 
 // c06ListLens renders the lengths of the node's own list-of-node fields: "Parts=2 …".
 func c06ListLens(n syntax.Node) (ty string, lens []string, slots []slotInfo) {
@@ -141,8 +171,11 @@ func c06Post(n syntax.Node, r *Rand, ops *[]c06Op) string {
 		if _, isComment := x.(*syntax.Comment); isComment {
 			continue // Walk hands out the address of a loop copy
 		}
+		ty, lens, _ := c06ListLens(x)
+		if !c06WF(ty, lens) {
+			return fmt.Sprintf("ill-formed node %s{%s}: the tree well-formedness predicate (Model/C06.lean wfReq) does not hold", ty, strings.Join(lens, " "))
+		}
 		if p := c06PosEnd(x); p != "" {
-			ty, lens, _ := c06ListLens(x)
 			return fmt.Sprintf("Pos/End of %s{%s}: %s", ty, strings.Join(lens, " "), p)
 		}
 	}
@@ -159,7 +192,11 @@ func c06Post(n syntax.Node, r *Rand, ops *[]c06Op) string {
 			}
 			*ops = append(*ops, c06Op{strings.TrimSpace("wf " + ty + " " + strings.Join(lens, " ")), "true"})
 			m, mlens := c06Mutant(x, slots, 1+r.Intn(1<<len(slots)-1))
-			*ops = append(*ops, c06Op{strings.TrimSpace("wf " + ty + " " + strings.Join(mlens, " ")), fmt.Sprint(c06PosEnd(m) == "")})
+			real := c06PosEnd(m) == ""
+			if real != c06WF(ty, mlens) {
+				return fmt.Sprintf("the harness's copy of the WF predicate disagrees with Pos()/End() on %s{%s}", ty, strings.Join(mlens, " "))
+			}
+			*ops = append(*ops, c06Op{strings.TrimSpace("wf " + ty + " " + strings.Join(mlens, " ")), fmt.Sprint(real)})
 		}
 	}
 	encodeRoots := []syntax.Node{n}
@@ -196,9 +233,31 @@ func c06Post(n syntax.Node, r *Rand, ops *[]c06Op) string {
 	return ""
 }
 
+// c06Safely is safely() plus the innermost function of mvdan.cc/sh/v3/syntax on the panicking stack.
+func c06Safely(f func()) (panicked, where string) {
+	defer func() {
+		if r := recover(); r != nil {
+			panicked = fmt.Sprint(r)
+			for _, l := range strings.Split(string(debug.Stack()), "\n") {
+				if strings.HasPrefix(l, "mvdan.cc/sh/v3/syntax") && !strings.Contains(l, "safely") {
+					l = strings.TrimPrefix(l, "mvdan.cc/sh/v3/syntax")
+					l = strings.TrimPrefix(l, "/typedjson")
+					if i := strings.LastIndex(l, "("); i > 0 {
+						l = l[:i]
+					}
+					where = strings.TrimPrefix(l, ".")
+					break
+				}
+			}
+		}
+	}()
+	f()
+	return "", ""
+}
+
 // c06One runs one entry point; returns "" or a failure description.
 func c06One(entry int, o c06Opts, src string, r *Rand, ops *[]c06Op) (msg string, gotTree bool) {
-	p := safely(func() {
+	p, where := c06Safely(func() {
 		ps := o.parser()
 		rd := strings.NewReader(src)
 		switch entry {
@@ -261,9 +320,32 @@ func c06One(entry int, o c06Opts, src string, r *Rand, ops *[]c06Op) (msg string
 		}
 	})
 	if p != "" {
-		return "panic: " + p, gotTree
+		return "panic in " + where + ": " + p, gotTree
 	}
 	return msg, gotTree
+}
+
+// c06Class maps a failure to the class witness of an open known finding, or "".
+//   recover-class arithm-unclosed-state — with RecoverErrors, arithmEnd (and the `$[` branch of wordPart)
+//     return on a recovered missing `))`/`]` without postNested: the lexer stays in arithmetic
+//     mode, whose literals do not reset p.eqlOffs; a later word is then sliced with the stale offset
+//     of an earlier assignment (`o=$((1 a`): getAssign / hasValidIdent index out of range.
+//   recover-class caseitem-no-patterns — with RecoverErrors, `case n in (` at EOF yields a CaseItem
+//     without patterns (the pattern loop does not run at EOF) and the missing `esac` is recovered:
+//     the returned tree is ill-formed, CaseItem.Pos() panics in Walk callbacks, Print and typedjson.
+func c06Class(o c06Opts, src, what string) string {
+	if o.recover == 0 {
+		return ""
+	}
+	if (strings.HasPrefix(what, "panic in (*Parser).getAssign: runtime error: slice bounds out of range") ||
+		strings.HasPrefix(what, "panic in (*Parser).hasValidIdent: runtime error: index out of range")) &&
+		(strings.Contains(src, "((") || strings.Contains(src, "$[")) && strings.Contains(src, "=") {
+		return "recover-class arithm-unclosed-state"
+	}
+	if strings.HasPrefix(what, "ill-formed node CaseItem{") && strings.Contains(what, "Patterns=0") {
+		return "recover-class caseitem-no-patterns"
+	}
+	return ""
 }
 
 var c06Entries = []string{"Parse", "StmtsSeq", "WordsSeq", "InteractiveSeq", "Document", "Arithmetic"}
@@ -574,18 +656,34 @@ func c06(c *Ctx) {
 		case k < 86:
 			kind = "grammar-mutation"
 			src = c06Mutate(r, newProgGen(r, true).Program(1+r.Intn(2)), seeds)
-		case k < 92:
+		case k < 91:
 			kind = "splice"
 			a, b := seeds[r.Intn(len(seeds))], seeds[r.Intn(len(seeds))]
 			src = a[:r.Intn(len(a)+1)] + b[r.Intn(len(b)+1):]
-		case k < 98:
+		case k < 96:
 			kind = "deep"
 			src = c06Deep(r)
+		case k < 99:
+			// RecoverErrors is exercised best by programs that stop in the middle of a construct
+			kind = "truncation"
+			if r.Bool() {
+				src = seeds[r.Intn(len(seeds))]
+			} else {
+				src = newProgGen(r, true).Program(1 + r.Intn(2))
+			}
+			src = src[:r.Intn(len(src)+1)]
+			if r.Chance(40) {
+				src += r.Pick([]string{" a", " a=b", "\n", ";", " )", " }", " x=$((", " $(", " in (", " fi", "\"", "'"})
+			}
 		default:
 			kind = "long-line"
 			src = c06LongLine(r)
 		}
-		jobs = append(jobs, job{src, kind, mkOpts(r), r.Fork(fmt.Sprint(i))})
+		o := mkOpts(r)
+		if kind == "truncation" && o.recover == 0 {
+			o.recover = 1 + r.Intn(5)
+		}
+		jobs = append(jobs, job{src, kind, o, r.Fork(fmt.Sprint(i))})
 	}
 	type res struct {
 		fails    []Failure
@@ -675,6 +773,9 @@ func c06(c *Ctx) {
 		for _, f := range r.fails {
 			// minimise panics (not hangs) before reporting
 			w, what := f.Witness, f.What
+			if cl := c06Class(j.o, j.src, f.What); cl != "" && c06HasFailure(c, cl) {
+				continue
+			}
 			if !strings.Contains(what, "did not return") && len(j.src) > 8 {
 				parts := strings.Fields(w)
 				e := 0
@@ -697,6 +798,10 @@ func c06(c *Ctx) {
 						w, what = fmt.Sprintf("%s %s %s", c06Entries[e], j.o, hx(min)), m+fmt.Sprintf(" [minimised from a %d-byte input]", len(j.src))
 					}
 				}
+			}
+			if cl := c06Class(j.o, j.src, f.What); cl != "" {
+				what += " [e.g. " + w + "]"
+				w = cl
 			}
 			c.Fail(w, what)
 		}
